@@ -69,7 +69,7 @@ def region_to_pre(lm, region):
     return re.sub(r"present\(([^)]*)\)", sub, region)
 
 
-def run(chk, mode, tier, timeout=None):
+def run(chk, mode, tier, timeout=None, skip_alias_roots=False):
     """mode: 'C14' | 'C03' | 'C01' | 'C15'.  Fills chk (runner.Check)."""
     extra = mode == "C15"
     cfg = cfg_for(tier)
@@ -79,6 +79,8 @@ def run(chk, mode, tier, timeout=None):
     lemmas = []
     excluded = {}
     for lid, lm in table.items():
+        if skip_alias_roots and all(p.startswith("alias ") for p in lm.pos.paths):
+            continue
         params = lm.al.params()
         pre = list(lm.al.pre)
         if extra:
